@@ -144,18 +144,19 @@ func (h *Headers) Serialize(frh *FrameHeader) {
 		frh.Flags().with(FlagEndStream, h.endStream).with(FlagEndHeaders, h.endHeaders).
 			with(FlagPriority, h.priority).with(FlagPadded, h.hasPadding))
 
-	if h.priority {
+	// Built in the header's buffer. Writing the priority section and the
+	// padding into h.rawHeaders changes what Headers() returns, and a second
+	// WriteTo would nest the first priority section and padding in the block.
+	frh.payload = frh.payload[:0]
 
-		// prepend stream and weight to rawHeaders
-		h.rawHeaders = append(h.rawHeaders, 0, 0, 0, 0, 0)
-		copy(h.rawHeaders[5:], h.rawHeaders)
-		http2utils.Uint32ToBytes(h.rawHeaders[0:4], h.stream&(1<<31-1))
-		h.rawHeaders[4] = h.weight
+	if h.priority {
+		frh.payload = http2utils.AppendUint32Bytes(frh.payload, h.stream&(1<<31-1))
+		frh.payload = append(frh.payload, h.weight)
 	}
+
+	frh.payload = append(frh.payload, h.rawHeaders...)
 
 	if h.hasPadding {
-		h.rawHeaders = http2utils.AddPadding(h.rawHeaders)
+		frh.payload = http2utils.AddPadding(frh.payload)
 	}
-
-	frh.payload = append(frh.payload[:0], h.rawHeaders...)
 }
